@@ -4,12 +4,16 @@ package main
 
 import (
 	"fmt"
+	"go/ast"
+	"go/constant"
+	"go/token"
 	"go/types"
 	"os"
 	"path/filepath"
 	"regexp"
 	"sort"
 	"strings"
+	"sync"
 
 	"golang.org/x/tools/go/packages"
 	"golang.org/x/tools/go/ssa"
@@ -27,13 +31,15 @@ type Engine struct {
 	tpkgs         []*types.Package
 	fnByKey       map[string]*ssa.Function
 	loadSecs      float64
+	initOnce      sync.Once
+	inits         map[*types.Var]constant.Value
 	contractFiles []string
 }
 
 var repoPatterns = []string{
 	"./auth", "./backend", "./backend/posix", "./backend/meta", "./backend/s3proxy",
 	"./s3api", "./s3api/controllers", "./s3api/middlewares", "./s3api/utils",
-	"./s3event", "./s3err", "./s3response",
+	"./s3event", "./s3err", "./s3response", "./metrics",
 }
 
 func loadEngine(repo, specDir string) (*Engine, error) {
@@ -135,6 +141,41 @@ func (fc *FuncContract) keys() []string {
 		return []string{"(" + recv + ")." + name, "(*" + recv + ")." + name}
 	}
 	return []string{name}
+}
+
+// globalInit: package-level variables declared with a constant initialiser (var X = "lit"); the value
+// is used for the variable under the standing assumption that package-level variables are not reassigned.
+func (eng *Engine) globalInit(v *types.Var) (constant.Value, bool) {
+	eng.initOnce.Do(func() {
+		eng.inits = map[*types.Var]constant.Value{}
+		for _, p := range eng.pkgs {
+			for _, f := range p.Syntax {
+				for _, d := range f.Decls {
+					gd, ok := d.(*ast.GenDecl)
+					if !ok || gd.Tok != token.VAR {
+						continue
+					}
+					for _, sp := range gd.Specs {
+						vs, ok := sp.(*ast.ValueSpec)
+						if !ok || len(vs.Values) != len(vs.Names) {
+							continue
+						}
+						for i, n := range vs.Names {
+							obj, _ := p.TypesInfo.Defs[n].(*types.Var)
+							if obj == nil {
+								continue
+							}
+							if tv, ok := p.TypesInfo.Types[vs.Values[i]]; ok && tv.Value != nil {
+								eng.inits[obj] = tv.Value
+							}
+						}
+					}
+				}
+			}
+		}
+	})
+	c, ok := eng.inits[v]
+	return c, ok
 }
 
 func (eng *Engine) contractByKey(k string) *FuncContract { return eng.byKey[k] }
